@@ -225,15 +225,18 @@ func (e *Engine) Commit(txn *Transaction) error {
 	txn.Clean(e.opts.MinOplogSize, e.opts.MaxOplogSize, e.opts.MinOplogAge, e.opts.MaxOplogAge)
 
 	// write catalog
+	verifYield("commit.store", e)
 	err := e.store.Store(txn.Catalog())
 	if err != nil {
 		return err
 	}
 
 	// set new catalog
+	verifYield("commit.publish", e)
 	e.catalog = txn.Catalog()
 
 	// broadcast change
+	verifYield("commit.broadcast", e)
 	for stream := range e.streams {
 		select {
 		case stream.signal <- struct{}{}:
@@ -405,6 +408,7 @@ func (e *Engine) Close() {
 	}
 
 	// await goroutine termination
+	verifAwait("close.wait", e, func() bool { return verifThreadEnded(e) })
 	_ = e.tomb.Wait()
 }
 
@@ -413,12 +417,17 @@ func (e *Engine) expire(interval time.Duration, reporter func(error)) {
 	ticker := time.NewTicker(interval)
 	defer ticker.Stop()
 
+	verifThreadStart("expire", e)
+	defer verifThreadEnd("expire", e)
+
 	for {
 		// await next interval
+		verifAwait("expire.tick", e, func() bool { return !e.tomb.Alive() || verifTickPending(e) })
 		select {
 		case <-e.tomb.Dying():
 			return
 		case <-ticker.C:
+		case <-verifTick(e):
 		}
 
 		// get transaction
